@@ -24,7 +24,7 @@ struct Sub {
 };
 struct Sub2 { int a_rather_long_parameter_name; int x; Sub2() : a_rather_long_parameter_name(0), x(0) {} static const rtosc::Ports ports; };
 struct Deep { int a_parameter_with_a_name_that_is_just_as_unreasonably_long_as_its_parent_s; Deep() : a_parameter_with_a_name_that_is_just_as_unreasonably_long_as_its_parent_s(0) {} static const rtosc::Ports ports; };
-struct Odd { int pi_min, pi_max; float pf_min, pf_max; int ai_min[3]; float af_max[3]; int po_max; int po_pre; int ao_pre[3]; float volume; int vol; char pc_r, pc_r2; int cut_i, pi_big, pi_imax; Deep a_sub_tree_with_a_name_that_is_much_longer_than_anyone_would_type_by_hand_0123456789; Odd() { memset((void *)this, 0, sizeof *this); pc_r2 = 1; cut_i = 20; } static const rtosc::Ports ports; };
+struct Odd { int pi_min, pi_max; float pf_min, pf_max; int ai_min[3]; float af_max[3]; int po_max; int po_pre; int ao_pre[3]; float volume; int vol; char pc_r, pc_r2; short ps16; signed char pc200; short as16[3]; int cut_i, pi_big, pi_imax; Deep a_sub_tree_with_a_name_that_is_much_longer_than_anyone_would_type_by_hand_0123456789; Odd() { memset((void *)this, 0, sizeof *this); pc_r2 = 1; cut_i = 20; } static const rtosc::Ports ports; };
 struct App {
     char pc; int pi; int pi_nb; int pi_neg; int pi_frac;
     float pf; float pf_log; float pf_nb; float pf_unit;
@@ -69,6 +69,9 @@ inline const rtosc::Ports Odd::ports = {
     rArrayOption(ao_pre, 3, rOptions(tri, triangle, t), rLinear(0, 2), "option array with prefix symbols"),
     rParam(pc_r, rLinear(0, 64), "char param that declares a range of its own"),
     rParam(pc_r2, rLinear(1, 100), "char param whose declared range starts above 0"),
+    rParamI(ps16, rLinear(0, 40000), "short storage, upper bound beyond what a short holds"),
+    rParam(pc200, rLinear(0, 200), "signed char storage, upper bound beyond what it holds"),
+    rArrayI(as16, 3, rLinear(-40000, 40000), "short array, bounds beyond what a short holds"),
     rParamF(volume, rLinear(0, 1000), "declared before a port whose name it starts with, other type and range"),
     rParamI(vol, rLinear(0, 100), "a port whose name is the beginning of an earlier sibling's name"),
 };
@@ -140,6 +143,7 @@ struct Leaf {
     std::function<Val(App &)> get;
     bool log_scale = false;
     std::vector<int> optidx;                          // index each option symbol denotes (empty: its position)
+    long smin = INT_MIN, smax = INT_MAX;              // what the storage type can represent (incoming values outside are not generated: the statement does not cover them)
     char type() const { return kind == K_PARAM_C ? 'c' : kind == K_PARAM_F ? 'f' : kind == K_TOGGLE ? 'T' : kind == K_STRING ? 's' : 'i'; }
     bool numeric_or_option() const { return kind != K_TOGGLE && kind != K_STRING; }
 };
@@ -211,6 +215,9 @@ inline const std::vector<Leaf> &leaves() {
     L.push_back({"/odd/pi_big", K_PARAM_I, true, true, "0", "16777219", {}, 0, [](App &a) { return vi(a.odd.pi_big); }});
     L.push_back({"/odd/pi_imax", K_PARAM_I, true, true, "0", "2147483647", {}, 0, [](App &a) { return vi(a.odd.pi_imax); }});
     L.push_back({"/odd/a_sub_tree_with_a_name_that_is_much_longer_than_anyone_would_type_by_hand_0123456789/a_parameter_with_a_name_that_is_just_as_unreasonably_long_as_its_parent_s", K_PARAM_I, true, true, "0", "100", {}, 0, [](App &a) { return vi(a.odd.a_sub_tree_with_a_name_that_is_much_longer_than_anyone_would_type_by_hand_0123456789.a_parameter_with_a_name_that_is_just_as_unreasonably_long_as_its_parent_s); }});
+    { Leaf l{"/odd/ps16", K_PARAM_I, true, true, "0", "40000", {}, 0, [](App &a) { return vi(a.odd.ps16); }}; l.smin = SHRT_MIN; l.smax = SHRT_MAX; L.push_back(l); }
+    { Leaf l{"/odd/pc200", K_PARAM_C, true, true, "0", "200", {}, 0, [](App &a) { return vi(a.odd.pc200); }}; l.smin = -128; l.smax = 127; L.push_back(l); }
+    for (int i = 0; i < 3; i++) { Leaf l{"/odd/as16" + std::to_string(i), K_ARR_I, true, true, "-40000", "40000", {}, 0, [i](App &a) { return vi(a.odd.as16[i]); }}; l.smin = SHRT_MIN; l.smax = SHRT_MAX; L.push_back(l); }
     L.push_back({"/odd/volume", K_PARAM_F, true, true, "0", "1000", {}, 0, [](App &a) { return vf(a.odd.volume); }});
     L.push_back({"/odd/vol", K_PARAM_I, true, true, "0", "100", {}, 0, [](App &a) { return vi(a.odd.vol); }});
     for (int i = 0; i < 3; i++) L.push_back({"/odd/ao_pre" + std::to_string(i), K_OPTION, true, true, "0", "2", {"tri", "triangle", "t"}, 0, [i](App &a) { return vi(a.odd.ao_pre[i]); }});
@@ -368,6 +375,7 @@ struct Node {
                     case K_TOGGLE: ok = in.tag == 'T' || in.tag == 'F'; break; case K_OPTION: ok = in.tag == 'i' || in.tag == 'c' || in.tag == 'S'; break; case K_STRING: ok = in.tag == 's'; break; }
                 if (!ok) return false;
                 if (l.kind == K_PARAM_C && (in.v.i < -128 || in.v.i > 127)) return false;
+                if ((l.kind == K_PARAM_I || l.kind == K_ARR_I || l.kind == K_PARAM_C) && (in.v.i < l.smin || in.v.i > l.smax)) return false;
                 if (l.kind == K_PARAM_F && std::isnan(in.v.f)) return false;
             }
             deliver(L[i], (int)i, in, msg);
